@@ -263,6 +263,31 @@ func runC18(c *Ctx) {
 		if len(cs.Rows) < 2 && r.Chance(80) {
 			cs.Rows = genRows(r, cs.Schema, 2+r.Intn(4))
 		}
+		if sc0 := cs.Schema; i%10 == 6 && !sc0.Auto && len(cs.Rows) >= 2 && len(sc0.PK) < len(sc0.Cols) {
+			// directed: an explicit local transaction whose FIRST statement is an UPDATE the database fails; the
+			// application carries on with two more statements and commits — each of them must be recorded with
+			// its own images, not with what the failed statement left lying about
+			var nonPK []int
+			for ci := range sc0.Cols {
+				if !sc0.isPK(ci) {
+					nonPK = append(nonPK, ci)
+				}
+			}
+			keyCond := func(row []ATVal) *ATCond {
+				cond := &ATCond{Op: "cmp:e", E: []*ATExpr{{K: 'c', Col: sc0.PK[0]}, {K: 'a', Val: row[sc0.PK[0]]}}}
+				for k := 1; k < len(sc0.PK); k++ {
+					cond = &ATCond{Op: "A", A: cond, B: &ATCond{Op: "cmp:e", E: []*ATExpr{{K: 'c', Col: sc0.PK[k]}, {K: 'a', Val: row[sc0.PK[k]]}}}}
+				}
+				return cond
+			}
+			col := nonPK[i/10%len(nonPK)]
+			set := func() []ATSet { return []ATSet{{Col: col, Plus: -1, E: &ATExpr{K: 'a', Val: genVal(r, sc0.Cols[col])}}} }
+			cs.Locals[0] = ATLocalTx{Explicit: true, ContinueOnError: true, Stmts: []*ATStmt{
+				{Kind: 'U', Sets: set(), Where: keyCond(cs.Rows[0]), ForceFail: true},
+				{Kind: 'U', Sets: set(), Where: keyCond(cs.Rows[1])},
+				{Kind: 'D', Where: keyCond(cs.Rows[0])},
+			}}
+		}
 		cs.Classes = nil
 		for _, st := range cs.Locals[0].Stmts {
 			cs.Classes = append(cs.Classes, st.Classes...)
